@@ -309,10 +309,12 @@ func c07CheckPop(c *vk.Ctx, src string, sel *selector.Selector, p *c07Pop, kind 
 
 func c07PruneLeaves(compact bool) []*selgen.Node {
 	if compact {
+		// restriction-relevant leaves: both values of a as == and in{}, sets written in descending
+		// order, has(), the operators without restrictions, a second label
 		n := func(k selgen.Kind, l, v string) *selgen.Node { return &selgen.Node{Kind: k, Label: l, Value: v} }
 		return []*selgen.Node{
-			n(selgen.Eq, "a", "1"), n(selgen.Eq, "b", "2"), n(selgen.Ne, "a", "1"), n(selgen.StartsWith, "b", "1"),
-			{Kind: selgen.In, Label: "a", Set: []string{"1", "2"}}, {Kind: selgen.In, Label: "b", Set: []string{}},
+			n(selgen.Eq, "a", "1"), n(selgen.Eq, "a", "2"), n(selgen.Eq, "b", "2"), n(selgen.Ne, "a", "1"),
+			{Kind: selgen.In, Label: "a", Set: []string{"2", "1"}}, {Kind: selgen.In, Label: "b", Set: []string{}},
 			{Kind: selgen.NotIn, Label: "a", Set: []string{"2"}}, {Kind: selgen.Has, Label: "a"}, {Kind: selgen.Has, Label: "b"}, {Kind: selgen.All},
 		}
 	}
@@ -322,6 +324,7 @@ func c07PruneLeaves(compact bool) []*selgen.Node {
 
 var c07NestedNot = selgen.Style{NestedNot: true}
 
+// pops == nil: only B1 (restrictions + candidate index), no population scans.
 func c07CheckTree(c *vk.Ctx, p *parser.Parser, pops []*c07Pop, t *selgen.Node, full bool) (calls int64) {
 	src := t.Render(c07NestedNot)
 	sel, err := p.Parse(src)
@@ -552,7 +555,13 @@ func c07Prune(c *vk.Ctx, workers int) {
 		}
 		emitTrees(ts, true)
 	}
-	if c.Thorough() {
+	{
+		// k = 3 over the restriction-relevant leaves: B1 in both tiers, B3 (population scans) in the
+		// thorough tier only
+		k3pops := pops
+		if c.Quick() {
+			k3pops = nil
+		}
 		u := make([]*selgen.Node, 0, 2*len(compact))
 		for _, l := range compact {
 			u = append(u, l, &selgen.Node{Kind: selgen.Not, Kids: []*selgen.Node{l}})
@@ -561,8 +570,12 @@ func c07Prune(c *vk.Ctx, workers int) {
 			for _, first := range u {
 				ch <- func(p *parser.Parser) (n int64) {
 					selgen.Groups3For(kind, first, compact, func(g *selgen.Node) bool {
-						for _, top := range selgen.Tops(g)[:2] {
-							n += c07CheckTree(c, p, pops, top, false)
+						tops := selgen.Tops(g)[:2]
+						if c.Quick() {
+							tops = tops[:1] // a negated group advertises no restrictions
+						}
+						for _, top := range tops {
+							n += c07CheckTree(c, p, k3pops, top, false)
 							atomic.AddInt64(&nSel, 1)
 						}
 						return !c.Expired()
